@@ -58,8 +58,16 @@ type unsafePtr struct {
 
 func argStr(v value) string { return concreteString(v, "primitive argument") }
 
+// instants: year 1..9999 by default; harnesses may narrow the range (vxTimeRange)
 func minTimeSec() *big.Int { return bi(-62135596800) }
 func maxTimeSec() *big.Int { return bi(253402300799) }
+
+func (p *pathState) timeRange() (*big.Int, *big.Int) {
+	if p.tlo != nil {
+		return p.tlo, p.thi
+	}
+	return minTimeSec(), maxTimeSec()
+}
 
 func mkTimeValue(sec, nsec value) structure {
 	// time.Time{wall: nsec, ext: sec + unixToInternal, loc: nil}
@@ -133,24 +141,28 @@ func init() {
 		},
 		"vxTime": func(fr *frame, a []value) (value, bool) {
 			n := argStr(a[0])
-			sec := fr.i.p.declare(n+".sec", false, minTimeSec(), maxTimeSec())
+			lo, hi := fr.i.p.timeRange()
+			sec := fr.i.p.declare(n+".sec", false, lo, hi)
 			nsec := fr.i.p.declare(n+".nsec", false, bigZero, bi(999999999))
 			return mkTimeValue(sec, nsec), true
 		},
 		"vxTimeSec": func(fr *frame, a []value) (value, bool) {
 			n := argStr(a[0])
-			sec := fr.i.p.declare(n+".sec", false, minTimeSec(), maxTimeSec())
+			lo, hi := fr.i.p.timeRange()
+			sec := fr.i.p.declare(n+".sec", false, lo, hi)
 			return mkTimeValue(sec, int64(0)), true
 		},
 		"vxHTTPDate": func(fr *frame, a []value) (value, bool) {
 			n := argStr(a[0])
 			// Format(http.TimeFormat) needs year 0..9999; restrict to year 1..9999 like vxTime
-			sec := fr.i.p.declare(n+".sec", false, minTimeSec(), maxTimeSec())
+			lo, hi := fr.i.p.timeRange()
+			sec := fr.i.p.declare(n+".sec", false, lo, hi)
 			return sdate{sec: sec}, true
 		},
 		"vxHTTPDateOpt": func(fr *frame, a []value) (value, bool) {
 			n := argStr(a[0])
-			sec := fr.i.p.declare(n+".sec", false, minTimeSec(), maxTimeSec())
+			lo, hi := fr.i.p.timeRange()
+			sec := fr.i.p.declare(n+".sec", false, lo, hi)
 			valid := fr.i.p.declare(n+".valid", true, nil, nil)
 			return sdate{sec: sec, valid: valid}, true
 		},
@@ -222,6 +234,13 @@ func init() {
 			fr.i.p.seq[n] = k + 1
 			return k, true
 		},
+		"vxSeqPeek": func(fr *frame, a []value) (value, bool) { return fr.i.p.seq[argStr(a[0])], true },
+		"vxTimeRange": func(fr *frame, a []value) (value, bool) {
+			fr.i.p.tlo, fr.i.p.thi = bigOf(a[0]), bigOf(a[1])
+			return nil, true
+		},
+		"vxLog": func(fr *frame, a []value) (value, bool) { return nil, true },
+		"vxStop": func(fr *frame, a []value) (value, bool) { panic(pathEnd{}) },
 		"vxTier": func(fr *frame, a []value) (value, bool) { return os.Getenv("VX_TIER"), true },
 		"vxIsSymbolic": func(fr *frame, a []value) (value, bool) { return true, true },
 		"vxAtoi": func(fr *frame, a []value) (value, bool) {
@@ -232,6 +251,19 @@ func init() {
 			case string:
 				n, err := strconv.ParseInt(s, 10, 64)
 				return tuple{n, err == nil}, true
+			case sstr:
+				// decimal digits with symbolic content (at most 18, so no overflow)
+				if len(s.b) == 0 || len(s.b) > 18 {
+					abort("vxAtoi of a symbolic string of %d bytes", len(s.b))
+				}
+				ok := tTrue
+				val := mkConstI(0)
+				for _, b := range s.b {
+					t := toTerm(b)
+					ok = mkAnd(ok, mkAnd(mkLe(mkConstI('0'), t), mkLe(t, mkConstI('9'))))
+					val = mkAdd(mkMulC(val, bi(10)), mkSub(t, mkConstI('0')))
+				}
+				return tuple{concretize(types.Typ[types.Int64], mkIte(ok, val, mkConstI(0))), simplifyBool(ok)}, true
 			}
 			abort("vxAtoi of %s", describeString(a[0]))
 			return nil, true
@@ -311,6 +343,20 @@ func init() {
 	ext["internal/bytealg.Equal"] = func(fr *frame, a []value) (value, bool) {
 		x, y := a[0].([]value), a[1].([]value)
 		return strEq(mkSstr(x), mkSstr(y)), true
+	}
+	ext["maps.clone"] = func(fr *frame, a []value) (value, bool) {
+		it := a[0].(iface)
+		m, _ := it.v.(*omap)
+		if m == nil {
+			return it, true
+		}
+		c := newOmap(m.kt)
+		for _, e := range m.entries {
+			if !e.dead {
+				c.insert(e.key, e.val, fr.decide)
+			}
+		}
+		return iface{it.t, c}, true
 	}
 	ext["internal/abi.NoEscape"] = func(fr *frame, a []value) (value, bool) { return a[0], true }
 	ext["runtime.Callers"] = func(fr *frame, a []value) (value, bool) { return 0, true }
